@@ -119,4 +119,99 @@ func fnConcurrentOracle(m *fnRun) {
 				Detail: []string{fmt.Sprintf("handler returned %#v (%T), Call returned %#v (%T), error %v", c.want, c.want, got, got, err)}})
 		}
 	}
+
+	// typed string enums (native type: the named Go type) as items of lists and values of maps: the
+	// handler is accepted iff its parameter / result type is the container OF THE NAMED TYPE, and an
+	// accepted function takes such a value. The expected native types are written down here, not asked
+	// of the schema.
+	type fnColor string
+	colours := func() schema.Type {
+		return schema.NewTypedStringEnumSchema(map[fnColor]*schema.DisplayValue{"red": nil, "blue": nil})
+	}
+	type enumCase struct {
+		name     string
+		declared func() schema.Type
+		right    any // handler whose types agree
+		wrong    any // handler over the underlying string type
+		arg      any
+	}
+	ecs := []enumCase{
+		{"list[enum[Color]]", func() schema.Type { return schema.NewListSchema(colours(), nil, nil) },
+			func(c []fnColor) int64 { return int64(len(c)) }, func(c []string) int64 { return int64(len(c)) }, []fnColor{"red", "blue"}},
+		{"list[list[enum[Color]]]", func() schema.Type { return schema.NewListSchema(schema.NewListSchema(colours(), nil, nil), nil, nil) },
+			func(c [][]fnColor) int64 { return int64(len(c)) }, func(c [][]string) int64 { return int64(len(c)) }, [][]fnColor{{"red"}}},
+		{"map[string]list[enum[Color]]", func() schema.Type {
+			return schema.NewMapSchema(str, schema.NewListSchema(colours(), nil, nil), nil, nil)
+		}, func(c map[string][]fnColor) int64 { return int64(len(c)) }, func(c map[string][]string) int64 { return int64(len(c)) }, map[string][]fnColor{"a": {"red"}}},
+		{"enum[Color]", colours, func(c fnColor) int64 { return 1 }, func(c string) int64 { return 1 }, fnColor("red")},
+	}
+	for _, ec := range ecs {
+		for _, dynamic := range []bool{false, true} {
+			mk := func(h any) (schema.CallableFunction, error) {
+				if dynamic {
+					return schema.NewDynamicCallableFunction("f", []schema.Type{ec.declared()}, nil, func() any {
+						// dynamic handlers return (any, error)
+						switch hh := h.(type) {
+						case func([]fnColor) int64:
+							return func(c []fnColor) (any, error) { return hh(c), nil }
+						case func([]string) int64:
+							return func(c []string) (any, error) { return hh(c), nil }
+						case func([][]fnColor) int64:
+							return func(c [][]fnColor) (any, error) { return hh(c), nil }
+						case func([][]string) int64:
+							return func(c [][]string) (any, error) { return hh(c), nil }
+						case func(map[string][]fnColor) int64:
+							return func(c map[string][]fnColor) (any, error) { return hh(c), nil }
+						case func(map[string][]string) int64:
+							return func(c map[string][]string) (any, error) { return hh(c), nil }
+						case func(fnColor) int64:
+							return func(c fnColor) (any, error) { return hh(c), nil }
+						default:
+							return func(c string) (any, error) { return int64(1), nil }
+						}
+					}(), func(in []schema.Type) (schema.Type, error) { return i64, nil })
+				}
+				return schema.NewCallableFunction("f", []schema.Type{ec.declared()}, i64, false, nil, h)
+			}
+			what := fmt.Sprintf("declared %s, dynamic=%v", ec.name, dynamic)
+			m.s.stats["oracle:typed-enum-containers"]++
+			var f schema.CallableFunction
+			var err error
+			pmsg := ""
+			func() {
+				defer func() {
+					if r := recover(); r != nil {
+						pmsg = fmt.Sprint(r)
+					}
+				}()
+				f, err = mk(ec.right)
+			}()
+			if pmsg != "" {
+				m.s.finding(Finding{Prop: "C18", What: "constructor panicked: " + what + ": " + pmsg})
+				continue
+			}
+			if err != nil {
+				m.s.finding(Finding{Prop: "C18", What: "a handler whose parameter type is the declared native type was rejected", Detail: []string{what, err.Error()}})
+			} else {
+				var got any
+				func() {
+					defer func() {
+						if r := recover(); r != nil {
+							err = fmt.Errorf("panic: %v", r)
+						}
+					}()
+					got, err = f.Call([]any{ec.arg})
+				}()
+				if err != nil || got == nil {
+					m.s.finding(Finding{Prop: "C18", What: "an accepted function refuses an argument of its declared native type", Detail: []string{what, fmt.Sprintf("%v %v", got, err)}})
+				}
+			}
+			func() {
+				defer func() { _ = recover() }()
+				if _, err := mk(ec.wrong); err == nil {
+					m.s.finding(Finding{Prop: "C18", What: "a handler over the underlying string type was accepted for a declared typed enum", Detail: []string{what}})
+				}
+			}()
+		}
+	}
 }
